@@ -853,3 +853,12 @@ package statsd
 //@   loop 1 invariant calls(MergeMaps) == 1 && calls(SplitByTags) == 1
 //@   ensures  calls(MergeMaps) == 1 && calls(SplitByTags) == 1
 //@   modifies everything
+
+// The UDP receiver (C05): the DoneFunc of a datagram gives back exactly the buffer that was taken for that datagram
+// when it was read -- a buffer fixed when the closure is made, not whatever occupies the slot when the parser is done
+// with the datagram (the slot is re-armed with another buffer at once) -- and it does so once.
+//@ func (*DatagramReceiver).Receive$1
+//@   captures dr != nil && dr.bufPool != nil && retBuf != nil
+//@   callsite Put[bufPool.Put] requires arg0 == retBuf
+//@   ensures  calls(bufPool.Put) == 1
+//@   modifies everything
